@@ -33,6 +33,7 @@ import GdVerif.Run.GenJc2m
 import GdVerif.Run.Jc2mFaults
 import GdVerif.Run.Small
 import GdVerif.Run.FfowFaults
+import GdVerif.Run.MindustryFaults
 /-
   gdmodel: the model behind a line protocol.
     gdmodel run        : reads `<id> <entry> <args…>` lines on stdin, prints `<id> <outcome>`
@@ -67,6 +68,7 @@ def allEntries : List (String × (List String → String)) := List.flatten [
   jc2mFaultEntries,
   smallEntries,
   ffowFaultEntries,
+  mindustryFaultEntries,
   gs1Entries,
   gs1FaultEntries,
   gs2Entries,
